@@ -104,17 +104,21 @@ CLAIMS = {
         "Not modelled: serde/config-crate parsing, the normalisation chain of is_loopback_host (host table vs python classification).",
    design="§3 C18"),
  "C19": dict(
-   engine="ratelimit",
-   technique="Lean 4 proof (conservation law of the token bucket by a transitive relation over any call sequence) + correspondence under a virtual clock",
+   engine="ratelimit+conc",
+   technique="Lean 4 proof (conservation law of the token bucket by a transitive relation over any call sequence, for the global and - after the fix - the tenant bucket under every interleaving) + correspondence under a virtual clock + controlled-scheduler exploration of concurrent callers",
    text="Theorems C19_bucket_bound / C19_window_bound (from ANY capped bucket state, any sequence of try_consume calls at monotone "
         "clock readings admits <= burst + rate*elapsed, over any window), C19_global_all_schedules (the never-refunded, mutex-"
         "protected global bucket obeys it under every interleaving), checkLimit_tenant_rel (sequential check_limit incl. the "
-        "refund path), C19_refund_restores, C19_no_spurious_refusal; the concurrent per-tenant statement is kept as "
-        "TenantAllSchedulesStatement with the refuting witness C19_refund_window_witness. Tie: the real RateLimiter runs under a "
+        "refund path), C19_refund_restores, C19_no_spurious_refusal, C19_tenant_all_schedules (the tenant bucket, locked from consume to "
+        "refund, sees atomic calls at monotone readings whatever the global bucket answers) and C19_prefix_refund_window (the "
+        "pre-fix protocol admits burst+1 at one instant). Tie: the real RateLimiter runs under a "
         "virtual CLOCK_MONOTONIC (in-binary interposition) on generated call patterns; decisions, clock-read counts and available "
-        "tokens are compared with the exact-arithmetic model; window oracle on the implementation.",
+        "tokens are compared with the exact-arithmetic model; window oracle and reference-bucket oracle (refused => nothing consumed, "
+        "not refused while budget remains) on the implementation. Concurrent callers: 2-3 threads on the real RateLimiter under the "
+        "controlled scheduler with the virtual clock moved by scheduled `adv` operations; every window of every history within "
+        "burst + rate*dt. One defect found and repaired (fix 78e4fe2).",
    note="Exact integer arithmetic in the model vs f64 in the code: a case stops being compared at a decision within 10 nano-tokens "
-        "of the threshold. Concurrency of the tenant bucket (refund window) is not covered by this run. Trusted: Lean kernel, hand "
+        "of the threshold. Concurrent exploration is bounded (preemption bound 2-3, lock-acquisition granularity). Trusted: Lean kernel, hand "
         "model validated by correspondence, virtual clock shim.",
    design="§3 C19"),
  "C15": dict(
